@@ -411,3 +411,25 @@ def shield_chain(ctx: Ctx, rule: str):
     pub = ctx.fn("CancelScope.__new__", TASKS)
     ok = len(forwards_param(pub, "shield", {"create_cancel_scope"})) == 1
     ctx.ob(rule, pub, "anyio.CancelScope(shield=...) passes shield to the backend factory", ok, detail="" if ok else "the public CancelScope factory drops shield", by=("shield=shield",))
+
+
+# ----------------------------------------------------------------------------- value of a local defined once or in both arms of one `if`
+def resolve_value(fn, e, within=None):
+    """follow a local: a single assignment gives its value; one assignment in each arm of the same `if` (the canonical form of
+    `x = A if c else B`, see core._expand_conditional_expressions) gives the equivalent conditional expression"""
+    if not isinstance(e, ast.Name):
+        return e
+    root = within if within is not None else fn
+    defs = [n for n in own_walk(root) if isinstance(n, ast.Assign) and len(n.targets) == 1 and isinstance(n.targets[0], ast.Name)
+            and n.targets[0].id == e.id]
+    if len(defs) == 1:
+        return defs[0].value
+    if len(defs) == 2:
+        pa, pb = getattr(defs[0], "_parent", None), getattr(defs[1], "_parent", None)
+        if pa is pb and isinstance(pa, ast.If):
+            a, b = defs
+            if a in pa.orelse and b in pa.body:
+                a, b = b, a
+            if a in pa.body and b in pa.orelse and len(pa.body) == 1 and len(pa.orelse) == 1:
+                return ast.IfExp(test=pa.test, body=a.value, orelse=b.value)
+    return e
